@@ -18,15 +18,31 @@ func init() {
 	sctp.Hooks.Go = vsched.Go
 }
 
-// vfNewX creates a PeerConnection whose DTLS role is fixed by the answering-role setting.
+// vfNewX creates a PeerConnection with a fixed DTLS role. Role client: fixed by the answering-role setting. Role
+// server: fixed by the peer's explicit role (the peer said a=setup:active, so this side is server) while the
+// answering-role setting says CLIENT - the explicit remote role has precedence in DTLSTransport.role(), and code
+// that asks the setting instead of the transport gets the wrong answer.
 func vfNewX(tb testing.TB, role DTLSRole) *PeerConnection {
+	setting := role
+	if role == DTLSRoleServer {
+		setting = DTLSRoleClient
+	}
 	api := vNewAPI(tb, vAPIOpts{setting: func(s *SettingEngine) {
-		if err := s.SetAnsweringDTLSRole(role); err != nil {
+		if err := s.SetAnsweringDTLSRole(setting); err != nil {
 			vkit.Fatalf(tb, "role: %v", err)
 		}
 	}})
+	pc := vNewPC(tb, api, nil)
+	if role == DTLSRoleServer {
+		pc.dtlsTransport.lock.Lock()
+		pc.dtlsTransport.remoteParameters.Role = DTLSRoleClient
+		pc.dtlsTransport.lock.Unlock()
+		if got := pc.dtlsTransport.role(); got != DTLSRoleServer {
+			vkit.Fatalf(tb, "harness: the DTLS role is %s, wanted server", got)
+		}
+	}
 
-	return vNewPC(tb, api, nil)
+	return pc
 }
 
 // vfConnectSCTP runs the real SCTPTransport.Start over the fake association (the DTLS connection it
